@@ -7,6 +7,7 @@ to out-guess the formatter.
 
 from __future__ import annotations
 
+import copy
 import random
 from dataclasses import dataclass, field
 
@@ -109,6 +110,11 @@ def render(doc: Doc) -> str:
             out[-1] += "let"
             render_set(w[1], 0, out, as_let=True)
             out.append("in")
+            # trivia between this layer's `in` and what it encloses
+            if len(w) > 2 and w[2] == "blank":
+                out.append("")
+            elif len(w) > 2 and w[2]:
+                out.append(w[2])
         elif k == "with":
             out[-1] += f"with {w[1]};"
         elif k == "assert":
@@ -130,7 +136,7 @@ def render(doc: Doc) -> str:
 
 class DocGen:
     def __init__(self, seed: int, *, comments=True, wrappers=True, max_lets=3, attrpaths=True, nested=True, quoted=True, inherits=True, refs=False,
-                 nested_families=True, with_ident_env=True, lets_anywhere=True, let_before_call=True, trailing_comments=True):
+                 nested_families=True, with_ident_env=True, lets_anywhere=True, let_before_call=True, trailing_comments=True, after_in_trivia=True):
         self.r = random.Random(seed)
         self.comments = comments
         self.wrappers = wrappers
@@ -145,6 +151,7 @@ class DocGen:
         self.lets_anywhere = lets_anywhere
         self.let_before_call = let_before_call
         self.trailing_comments = trailing_comments
+        self.after_in_trivia = after_in_trivia
         self.n = 0
         self._depth0 = True
 
@@ -278,7 +285,14 @@ class DocGen:
                     break
                 # bias: directly in front of the core when allowed
                 pos = positions[-1] if r.random() < 0.6 else r.choice(positions)
-                wrappers.insert(pos, ("let", self.let_node()))
+                after = None
+                if self.after_in_trivia:
+                    x = r.random()
+                    after = "blank" if x < 0.2 else (self.comment() if x < 0.35 and self.comments else None)
+                prev = [w for w in wrappers if w[0] == "let"]
+                # now and then a layer with exactly the content of another one ("layers are never confused whatever their contents")
+                node = copy.deepcopy(r.choice(prev)[1]) if prev and r.random() < 0.2 else self.let_node()
+                wrappers.insert(pos, ("let", node, after))
         core = self.set_node(2)
         if wrappers and wrappers[-1][0] == "call" and wrappers[-1][1].endswith(" rec"):
             core.rec = False
